@@ -47,7 +47,7 @@ FUNCTIONS = {
     ],
     modifies=['Props.endpoint', 'Props.has_endpoint', 'Props.deadline', 'Props.has_deadline', 'deque[tuple[AnySink,any]]',
               'SinkStack._stack', 'RespCtx.source', 'RespCtx.start_time', 'RespCtx.ar', 'RespCtx.props',
-              'ClientMessageSink._on_faulted', 'MessageSink._next', 'AsyncResult.g_sets', '$cls'],
+              'ClientMessageSink._on_faulted', 'MessageSink._next', 'AsyncResult.g_sets', 'AsyncResult.g_ready', 'AsyncResult.exception', 'AsyncResult.value', '$cls'],
     allocates='any',
     ghost=[
       {'before': 'gevent.spawn(sink.AsyncProcessRequest, sink_stack, disp_msg, None, {})', 'do': [
@@ -86,7 +86,7 @@ FUNCTIONS = {
     ensures=[],
     modifies=['Props.endpoint', 'Props.has_endpoint', 'Props.deadline', 'Props.has_deadline', 'deque[tuple[AnySink,any]]',
               'SinkStack._stack', 'RespCtx.source', 'RespCtx.start_time', 'RespCtx.ar', 'RespCtx.props',
-              'ClientMessageSink._on_faulted', 'MessageSink._next', 'AsyncResult.g_sets', '$cls',
+              'ClientMessageSink._on_faulted', 'MessageSink._next', 'AsyncResult.g_sets', 'AsyncResult.g_ready', 'AsyncResult.exception', 'AsyncResult.value', '$cls',
               'Source.method', 'Source.service', 'Source.endpoint', 'Source.client_id'],
     allocates='any',
     ghost=[
